@@ -69,3 +69,4 @@ mod c17;
 mod c18;
 mod c19;
 mod c20;
+mod c13;
